@@ -3770,6 +3770,12 @@ fn write_residuals<W: BitWrite>(
                 return None;
             }
 
+            // the most negative 32-bit value isn't a valid residual
+            // (and can't be negated when Rice-coding it)
+            if partition.contains(&i32::MIN) {
+                return None;
+            }
+
             let partition_sum = partition
                 .iter()
                 .map(|i| u64::from(i.unsigned_abs()))
